@@ -50,11 +50,21 @@ func buildSweeps(thorough bool) []sweep {
 	// context axis: cancellation of the request does not change what the stream holds
 	ctxPlain := []string{ctxCancellable, ctxCancelBefore, ctxExpired, ctxCancelAfter}
 	ctxBlock := []string{ctxCancellable, ctxCancelBefore, ctxExpired, ctxCancelBlocked}
+	// the exported surface: the other consumers of request.Body and the library's own callers of the probe
+	consumers := []uint8{opCopy, opCopyRF, opReadAll, opCopyN2, opBufioBytes, opBufioWrTo, opOptional, opPredicates}
+	consumeAlpha := append([]uint8{opHasBody, opRead1, opRead4096, opClose}, consumers...)
+	binders := []uint8{opBindTyped, opBindUntyped}
+	bindAlpha := append([]uint8{opHasBody, opRead1, opClose, opReadAll}, binders...)
+	terms3 := []error{io.EOF, errInjected, io.ErrUnexpectedEOF}
+	libModes := []string{modeJSONRequest, modeAbsent0, modeAbsentMinus, modeZero, modePositive}
 	if thorough {
 		return []sweep{
 			{name: "small-bodies/undeclared/every-chunking", bodies: small, modes: undeclared, maxLen: 5, bound: -1, zeroBudget: 2},
 			{name: "small-bodies/undeclared/first-byte", bodies: []int{1, 2, 3}, modes: undeclared, maxLen: 5, bound: 2, zeroBudget: 1, firsts: firstOthers},
 			{name: "buffer-sized-bodies/undeclared/first-byte", bodies: big, modes: undeclared, maxLen: 4, bound: 1, zeroBudget: 1, firsts: firstOthers},
+			{name: "consumers/undeclared", bodies: []int{-1, 0, 1, 2, 3, 4097}, modes: undeclared, terms: terms3, alphabet: consumeAlpha, need: consumers, minLen: 1, maxLen: 3, bound: 2, zeroBudget: 1},
+			{name: "consumers/undeclared/len4", bodies: []int{0, 1, 3}, modes: undeclared[1:], terms: terms3, alphabet: consumeAlpha, need: consumers, minLen: 4, maxLen: 4, bound: 1, zeroBudget: 1},
+			{name: "library-callers", bodies: []int{-1, 0, 1, 3, 4097, 8193}, modes: libModes, terms: terms3, alphabet: bindAlpha, need: binders, minLen: 1, maxLen: 4, bound: 1, zeroBudget: 1},
 			{name: "cancellation/blocking-first-read", bodies: []int{0, 1, 3, 4097}, modes: undeclared[1:], maxLen: 2, bound: 1, zeroBudget: 0, ctxs: ctxBlock, blocking: true, waitMs: 200},
 			{name: "cancellation/non-blocking", bodies: []int{-1, 0, 1, 3, 4097}, modes: undeclared, maxLen: 4, bound: 1, zeroBudget: 1, ctxs: ctxPlain},
 			{name: "two-requests/undeclared", nreq: 2, multi: collideNil, maxLen: 5, bound: 1, zeroBudget: 1},
@@ -71,6 +81,8 @@ func buildSweeps(thorough bool) []sweep {
 	return []sweep{
 		{name: "small-bodies/undeclared", bodies: small, modes: undeclared, maxLen: 5, bound: 2, zeroBudget: 1},
 		{name: "small-bodies/undeclared/first-byte", bodies: []int{1, 2, 3}, modes: undeclared, maxLen: 4, bound: 1, zeroBudget: 1, firsts: firstOthers},
+		{name: "consumers/undeclared", bodies: []int{-1, 0, 1, 2, 3, 4097}, modes: undeclared, terms: terms3, alphabet: consumeAlpha, need: consumers, minLen: 1, maxLen: 3, bound: 1, zeroBudget: 1},
+		{name: "library-callers", bodies: []int{-1, 0, 1, 3, 4097, 8193}, modes: libModes, terms: []error{io.EOF, io.ErrUnexpectedEOF}, alphabet: bindAlpha, need: binders, minLen: 1, maxLen: 3, bound: 1, zeroBudget: 1},
 		{name: "cancellation/blocking-first-read", bodies: []int{0, 3, 4097}, modes: undeclared[1:], maxLen: 1, bound: 0, zeroBudget: 0, ctxs: ctxBlock, blocking: true, waitMs: 100},
 		{name: "cancellation/non-blocking", bodies: []int{-1, 0, 1, 3}, modes: undeclared[1:], maxLen: 3, bound: 1, zeroBudget: 1, ctxs: ctxPlain},
 		{name: "two-requests/undeclared", nreq: 2, multi: collide, maxLen: 4, bound: 1, zeroBudget: 1},
@@ -113,6 +125,9 @@ func buildPlans(thorough bool) []*plan {
 		} else {
 			for _, bl := range sw.bodies {
 				terms := []error{io.EOF, errInjected}
+				if sw.terms != nil {
+					terms = sw.terms
+				}
 				if bl < 0 {
 					terms = terms[:1]
 				}
@@ -635,6 +650,24 @@ func main() {
 		} else {
 			info["body_lengths(-1=nil)"] = sw.bodies
 			info["terminals"] = []string{"EOF", "ERR(sticky, after the last byte)"}
+			if sw.terms != nil {
+				var tn []string
+				for _, t := range sw.terms {
+					tn = append(tn, termName(t))
+				}
+				info["terminals"] = tn
+			}
+			if sw.alphabet != nil {
+				var on, nd []string
+				for _, o := range sw.alphabet {
+					on = append(on, opNames[o])
+				}
+				for _, o := range sw.need {
+					nd = append(nd, opNames[o])
+				}
+				info["operation_alphabet"] = on
+				info["only_histories_containing_one_of"] = nd
+			}
 			info["modes"] = sw.modes
 			info["extended_alphabet"] = sw.extended
 			if len(sw.ctxs) > 0 {
@@ -667,6 +700,15 @@ func main() {
 	}
 	r.Set("body_content", "byte i = i mod 251 (B, C: shifted by 83, 166); content axis on byte 0, the byte a probe peeks at: {0x00, 'a', LF, CR, space, 0xFF} where a sweep lists first_body_byte")
 	r.Set("cancellation", "sweeps 'cancellation/*': requests with a cancellable context {never cancelled, cancelled before the first operation, deadline already expired, cancelled while the first probe's underlying Read is parked, cancelled right after the first probe}; in 'blocking-first-read' the stream parks that Read (channels: 'Read entered' / 'release' / 'delivered') and the harness waits wait_ms for an early return before releasing it (a stimulus, never an oracle). Clauses: the text's (answer = a byte can be read, whatever the context; bytes and terminal intact) plus: no Read reaches or completes on the underlying stream while no body operation is in progress, no goroutine executing request.go code when a probe has returned (runtime.Stack, settle loop of 2 s), HasBody returns within 30 s of the release")
+	r.Set("exported_surface", map[string]string{
+		"runtime.HasBody":                 "the probe itself: every sweep",
+		"body installed by HasBody":       "Read / Close (every sweep); io.Copy into a plain writer and into a ReaderFrom, io.ReadAll, io.CopyN prefix, bufio.NewReader(body) ReadByte* and WriteTo, and every optional interface the body implements at run time (WriterTo, ByteReader, Seeker; ReaderFrom is recorded, not called): sweeps 'consumers/*'",
+		"Context.BindValidRequest":        "sweep 'library-callers' (typed flavour, RequestBinder that reads request.Body)",
+		"Context.BindAndValidate":         "sweep 'library-callers' (untyped binder + consumer that reads what it is given); its callers validation.contentType and untypedParamBinder are reached through it",
+		"runtime.JSONRequest":             "mode via-JSONRequest of 'library-callers': the request it builds around a stream is probed and bound",
+		"IsSafe, AllowsBody, CanHaveBody": "operation MethodPredicates of 'consumers/*': they must neither replace nor read the body",
+		"not covered":                     "APIHandler / Serve end to end (C06, C01 drive them; they reach the probe only through BindAndValidate), multipart and form binding (they parse the body through net/http, no probe), concurrent use of one request",
+	})
 	r.Set("operations", opNames[:])
 	r.Set("epilogue", "after every history, for every request in turn: Read(4096) until the terminal condition, Read(1), Close, Read(1), Close, Read(4096) - all judged by the same oracle")
 	r.Set("stream_choice_point", "every Read the underlying stream receives before it has delivered its terminal: full | 1 byte | all but one | all + terminal together | (0,nil); every Close it receives: nil | error (the stream counts as closed either way)")
